@@ -155,7 +155,35 @@ theorem C11_construct_rejected_without_dpos_share (cr dp : Fixed64 → Fixed64) 
   simp only [hpos]
   simp [coinbaseV2Check]
 
+/-! ### the block-level wrapper (checkTxsContext) -/
+
+/-- from `CheckRewardHeight` on, a block is accepted only if its coinbase passes the check … -/
+theorem C11_enforced_from_check_height (crh h : Nat) (res : CbRes) (hh : crh ≤ h) :
+    blockVerdict crh h res = res := by
+  unfold blockVerdict
+  cases res <;> simp only []
+  have : ¬ h < crh := by omega
+  simp [this]
+
+/-- … and below it a failing coinbase check does not reject the block (the error is overwritten;
+    replayed on a regnet node by builder b-chain: a coinbase paying 252 sela too much is connected).
+    The DPoS-v2 rule is unaffected on the built-in networks because DPoS v2 starts above
+    `CheckRewardHeight` there (`C11_gen_check_height`). -/
+theorem C11_swallowed_below_check_height (crh h : Nat) (e : CbErr) (hh : h < crh) :
+    blockVerdict crh h (.err e) = .ok := by
+  simp [blockVerdict, hh]
+
 /-! ### T-gen -/
+
+/-- `CheckRewardHeight ≤ DPoSV2StartHeight` on mainnet, testnet and regnet, and the error handling
+    of checkTxsContext is the modelled one -/
+theorem C11_gen_check_height :
+    (∀ p ∈ Gen.C11.checkRewardHeights, p.1 ≤ p.2) ∧
+    Gen.C11.coinbaseErrorHandling =
+      "if block.Height < b.chainParams.CheckRewardHeight { if err = block.Serialize(buf); err != nil { return err } } else { if e := block.Serialize(buf); e != nil { return e } }" := by
+  decide +kernel
+
+
 
 /-- the schedule parameters of the three built-in networks satisfy what the theorems assume
     (interval ≥ 2, non-negative old subsidy, new subsidy below the old one), all share
